@@ -35,6 +35,10 @@ def nt_server(suite, case, impl):
 
 def proj_forkable(pid, suite, case, lines):
     """Per-property projection of the forkable line protocol (same function for impl and model lines)."""
+    if suite == "hubburst":
+        # burst answers (events with all cursor fields, served/refused, snapshots); live events only for C04
+        keep = ("b", "bret", "bf", "canon", "lowest", "panic")
+        return [l for l in lines if l.split()[:1] and (l.split()[0] in keep or (pid == "C04" and l.split()[0] == "ev"))]
     if suite != "forkable":
         return lines
     out = []
@@ -133,9 +137,25 @@ PROPS = {
         "level_text": "PLACEHOLDER", "level_note": LEVEL_NOTE_COMMON, "explanation": "PLACEHOLDER",
     },
     "C04": {
-        "suites": [("forkable", 3000, 40000)], "props": ["C04"], "level": "other",
+        "suites": [("forkable", 3000, 40000), ("hubburst", 1500, 15000)], "props": ["C04"], "level": "other",
         "projection": proj_forkable, "nontrivial": nt_forkable, "rule": FORKABLE_RULE, "trusted_base": FORKABLE_TB,
         "technique": "Lean 4 model computing every cursor field + cursor monitor (Lean) on the implementation's traces + differential correspondence of all cursor fields",
+        "level_text": "PLACEHOLDER", "level_note": LEVEL_NOTE_COMMON, "explanation": "PLACEHOLDER",
+    },
+    "C05": {
+        "suites": [("hubburst", 2500, 30000)], "props": ["C05"], "level": "other",
+        "projection": proj_forkable, "nontrivial": lambda suite, case, impl: any(l.startswith("impl b undo") or l.startswith("impl b irr") for l in case["lines"]),
+        "rule": "cases = forkable histories as in C01-C04 (hub-like hold-until-LIB configuration 2 times in 3, all steps delivered); after a third of the blocks: a canonical snapshot, 2 requests by number around the window, sometimes a with-forks request, and up to 3 resumptions from cursors delivered earlier (New, Undo, 1/3 of the Irreversible ones; biased to recent ones), a third of them also through-cursor from a start around/below the cursor block. distinct = sha1 of header+ops; non-trivial = some burst contains an Undo or an Irreversible event",
+        "trusted_base": FORKABLE_TB,
+        "technique": "Lean 4 model of blocksFromCursor/blocksThroughCursor + pure-consumer monitor (Lean): burst applied to the consumer state at the cursor must end on the hub's live chain + differential correspondence of every burst",
+        "level_text": "PLACEHOLDER", "level_note": LEVEL_NOTE_COMMON, "explanation": "PLACEHOLDER",
+    },
+    "C09": {
+        "suites": [("hubburst", 2500, 30000)], "props": ["C09"], "level": "other",
+        "projection": proj_forkable, "nontrivial": lambda suite, case, impl: any(l.startswith("impl b newirr") for l in case["lines"]),
+        "rule": "same cases as C05; non-trivial = some burst by number starts at or below the hub LIB (new+irreversible prefix)",
+        "trusted_base": FORKABLE_TB,
+        "technique": "Lean 4 model of blocksFromNum/blocksFromNumWithForks/LowestBlockNum/Linkable + snapshot monitor (Lean) + differential correspondence",
         "level_text": "PLACEHOLDER", "level_note": LEVEL_NOTE_COMMON, "explanation": "PLACEHOLDER",
     },
     "C18": {
